@@ -6,7 +6,9 @@ import (
 	"fmt"
 	"go/token"
 	"go/types"
+	"os"
 	"sort"
+	"strings"
 
 	"golang.org/x/tools/go/ssa"
 )
@@ -144,6 +146,27 @@ func (sa *Safe) loadM(fr *frame, st *State, o *AObj, path string, t types.Type, 
 	}
 	if _, ok := t.Underlying().(*types.Array); ok {
 		return AVal{Kind: avUnknown, Type: t}
+	}
+	// reading an unknown element of an aggregate all of whose stored elements are known integers
+	if rg, isInt := intRange(t); isInt && strings.HasSuffix(path, "[*]") && !o.Summary {
+		pre := strings.TrimSuffix(path, "[*]")
+		iv := Itv{posInf, negInf}
+		n := 0
+		for p, v := range st.mem[o] {
+			if strings.HasPrefix(p, pre+"[") && !strings.Contains(p[len(pre):], "].") && !strings.Contains(p[len(pre)+1:], "[") {
+				if v.Kind != avInt || v.Lin == nil {
+					n = -1 << 30
+					break
+				}
+				iv = iv.join(st.linItv(v.Lin))
+				n++
+			}
+		}
+		if n > 0 && sa.fullyInit[o] {
+			a := sa.mAtom(fr, desc, rg)
+			st.itv[a] = iv.meet(rg)
+			return AVal{Kind: avInt, Lin: linAtom(a), Type: t}
+		}
 	}
 	v := sa.freshM(fr, st, t, desc, nilMaybe)
 	if !o.Summary && !hasStar(path) {
@@ -783,6 +806,15 @@ func (sa *Safe) needIndex(fr *frame, st *State, idx, length *Lin, what string, p
 	detail := ""
 	if !lo || !hi {
 		detail = fmt.Sprintf("cannot show 0 <= %s < %s ; index in %s, length in %s", sa.u.linString(idx), sa.u.linString(length), st.linItv(idx), st.linItv(length))
+		if os.Getenv("NASVERIF_DEBUG") == "index" {
+			fmt.Fprintf(os.Stderr, "INDEX %s: %s\n", what, detail)
+			for _, f := range st.facts {
+				fmt.Fprintf(os.Stderr, "    fact %s <= 0\n", sa.u.linString(f))
+			}
+			for a := range idx.add(length, -1).T {
+				fmt.Fprintf(os.Stderr, "    atom %s in %s\n", sa.u.atoms[a].Desc, st.atomItv(a))
+			}
+		}
 	}
 	sa.oblige("safe.index", fr.fn, what, pos, lo && hi, detail)
 	// after a successful access the bounds hold on the continuing path
